@@ -13,7 +13,11 @@ def main():
         commits = []
     hook_commits = [c.split()[0] for c in commits if " verif-hooks:" in c or c.split(" ", 1)[1].startswith("verif-hooks")]
     checks = []
+    pend_file = os.path.join(ROOT, "tools", "pending_props.txt")
+    pending = set(open(pend_file).read().split()) if os.path.exists(pend_file) else set()
     for pid in sorted(P.PROPS):
+        if pid in pending:
+            continue
         t = P.TEXT[pid]
         checks.append(dict(
             property_id=pid,
@@ -26,7 +30,8 @@ def main():
             level_note=t["note"],
             technique=t["technique"],
         ))
-    na = [dict(property_id=k, reason=v) for k, v in sorted(T.NOT_APPLICABLE.items()) if k not in P.PROPS]
+    na = [dict(property_id=k, reason=("machinery is built and merged but its check is still being validated on the current tree; no claim is made until it is registered" if k in P.PROPS else v))
+          for k, v in sorted(T.NOT_APPLICABLE.items()) if k not in P.PROPS or k in pending]
     m = dict(
         version=1,
         setup_cmd="./setup.sh",
